@@ -249,6 +249,20 @@ CLAIMS["C13"] = (
     "C14's, aliasing C20's, generated-code naming C19's subject; dataclass models (other kinds: C17).",
     "DESIGN.md section 5 C13", TECH)
 
+CLAIMS["C17"] = (
+    "Proof (partial): given what each introspector returns (Model/Kinds.v), C17_same_layout_for_definition_order_kinds - "
+    "dataclass, NamedTuple, attrs, pydantic and SQLAlchemy twins of any logical model give the name layout the very same "
+    "fields, hence for every stack of name_mapping providers the same layout and crown, and (C03) the same loader and "
+    "dumper behaviour; C17_typed_dict_lists_the_same_fields + C17_position_matters_only_for_as_list - TypedDict's "
+    "alphabetical order changes no path unless as_list is used; parameter kinds / names per kind (their irrelevance for what "
+    "is bound is C08 / C13). Partial because what the six packages do at class creation is observed, not proved. Tie: every "
+    "generated logical model is materialised in the kinds that can express it; the shapes adaptix reports are compared with "
+    "Model/Kinds.v, and the kinds with each other: 6 name_mapping variants x 5 inputs + dump + round trip, errors by class "
+    "and trail, converters between every ordered pair of kinds and from a partial source with allow_unlinked_optional.",
+    "Trusted: Coq kernel; dataclasses, typing, attrs 24.2, pydantic 2.10, SQLAlchemy 2.0 as installed; int / str fields. "
+    "Known finding: as_list on TypedDict follows alphabetical, not definition order (undocumented).",
+    "DESIGN.md section 5 C17", TECH)
+
 NOT_YET = "check not built yet in this session (DESIGN.md section 10 build order); not claimed until its model, theorems and correspondence exist"
 
 
